@@ -698,7 +698,9 @@ def systematic(configs):
                 for w in '01':
                     ops.append([mk('launch', ident=ident, n='3', persist=p, nowait=w)])
                 ops.append([mk('create', ident=ident, n='4', persist=p)])
-        for tt in ('zzz', 'Launch', 'continue_', '~'):
+        # unknown types, among them names that are attributes of the launcher once an underscore is put in front (a dispatch by
+        # name would find something) and the names of its handler methods themselves
+        for tt in ('zzz', 'Launch', 'continue_', '~', 'loader', 'persister', 'loop', 'load_context', '_launch', 'call__'):
             ops.append([mk(tt, ident='d.Out', n='1', persist='0', nowait='0')])
             ops.append([mk(tt, ak='N')])
         # malformed bodies
@@ -811,7 +813,7 @@ def random_history(rng, length, controller=False):
             else:
                 ops.append(mk('continue', pid=ref, nowait=w, tag=tg, act=some_act()))
         elif r < 0.95:
-            line = mk(rng.choice(['zzz', 'run', 'kill', '~', 'LAUNCH']), ak=rng.choice('AAN'), ident='d.Out', n=n,
+            line = mk(rng.choice(['zzz', 'run', 'kill', '~', 'LAUNCH', 'loader', 'persister', 'loop', 'load_context']), ak=rng.choice('AAN'), ident='d.Out', n=n,
                       persist=rng.choice('01'), nowait=rng.choice('01'))
             ops.append(('R ' + line) if controller else line)
         else:
